@@ -16,7 +16,35 @@ deleted afterwards), all VIOLATION with a shrunk replay, quick tier, seed 0:
   M12 docids() cached on (indexed_count, not_indexed_count)
 and the seeded changes C01_C (range fast path ignoring exclusive bounds) and C01_F (postings start as Set, promoted to
 TreeSet at 64 docids, the 65th docid is lost).
+
+Round 4 (measured, quick tier, seed 0, 4001 cases; shares of the older modes shift accordingly: small 79%, bulk-hot 16%,
+bulk-wide 4%):
+  huge modes      4 cases per quick run (case 2 of shards 0, 4, 8, 12: 3 `huge-distinct` = 4110-6000 documents with
+                  pairwise distinct int values, 1 `huge-posting` = one value shared by more than 4096 documents),
+                  thorough: case 2, 402, .. of every shard (112 cases, 15% of the distinct ones with 8200-9000 documents).
+                  Loaded by `bindex` (kept by the shrinker), a document without a value, a short ordinary history, then the
+                  range battery with bounds EQUAL to stored values: all four flag combinations of inrange, three of
+                  notinrange, lt/le/gt/ge, absent-neighbour bounds, ranges of exactly 4096 and 4097 stored values, a narrow
+                  range, any/notany/eq.  Per quick run 36 range queries cover more than 4097 distinct stored values, 12
+                  exactly 4096/4097.  The model needs 0.3-0.6 s per query there (quadratic association lists): a huge
+                  case costs 6-10 s, the quick tier 16-24 s wall.
+  value None      23% of the cases use a pool `X+none` (int, str, num, bytes, wide) whose lowest value is None (attribute
+                  present and None / callable discriminator returning None: a VALUE for FieldIndex, ordered before
+                  everything by OO BTrees; in 85% of these cases None is among the values used).  None is never a query
+                  constant: as a bound it means "open", and FieldIndex.apply(None) = values(None, None) = every indexed
+                  document (so `index.eq(None)` does not select the documents whose value is None - outside the generators).
+  any-of argument applyAny / applyNotAny / any() / notany() get a list (18%), tuple, set, frozenset, dict keys view,
+                  generator, iterator or map object (8-15% each), chosen by a hash of the command.
+Seeded C01_G (range over more than 4096 distinct values tests the upper bound with excludemin) and C06_G (unindex_doc takes
+a None value for "not indexed") were missed before and are caught now.  Further mutations of these classes
+(VERIF_REPO=/var/tmp/mut_s6/<X>, deleted afterwards), VIOLATION on quick seed 0:
+  A  BaseIndexMixin._negate subtracts an answer of more than 4096 ids from indexed() instead of docids() (needs a huge
+     positive answer and a document without a value)                     caught by 3 of the 4 huge cases
+  C  FieldIndex.index_doc tests `rev_index.get(docid) is not None` instead of `docid in rev_index` (needs a document
+     whose value None is re-indexed)                                     caught (C01 and C06)
 """
+import zlib
+
 from lib import zbox
 from lib.core import exc_name, idset
 
@@ -41,7 +69,12 @@ RULE = ("small mode (78%): histories of 5-60 (thorough: up to 400) index_doc/rei
         "of numbers (Eq with a tuple constant = finding D13), bytes (incl. b''), 120 ints / 120 strings. After "
         "each op with prob. 1/4 and at the end all ten comparisons via index.applyX and via "
         "index.X(..).execute() with constants present/absent/neighbouring/below/above, inverted ranges, empty and "
-        "duplicate any-lists; FieldIndex.apply() itself with {'query': v}, {'query': [..], 'operator': "
+        "duplicate any-lists (handed over as list, tuple, set, frozenset, dict keys view, generator, iterator, map); "
+        "23% of the cases draw from a pool whose lowest VALUE is None (never a query constant); 4 huge cases per quick "
+        "run (thorough 112): 4110-6000 (thorough also 8200-9000) documents with pairwise distinct values, or one value "
+        "shared by more than 4096 documents, a document without a value, a short history, then ranges with bounds equal "
+        "to stored values under all four exclusive-flag combinations covering more than 4096 / exactly 4096 / 4097 "
+        "distinct stored values; FieldIndex.apply() itself with {'query': v}, {'query': [..], 'operator': "
         "'or'/'and'/absent}, bare value, list, RangeValue (bare and in a dict); the enumeration tuple (indexed, "
         "not_indexed, docids, counts, unique_values; sometimes twice in a row) and document_repr; both BTrees "
         "families; attribute and callable discriminators. non-trivial = the answers contain at least one "
@@ -79,10 +112,22 @@ TUPLE_POOL = [(), (-1,), (0,), (0, 0), (0, 0, 0), (0, 1), (0, 1.5), Alt(((1,), (
 BYTES_POOL = [b"", b"\x00", b"A", b"a", b"a\x00", b"ab", b"b", b"\xff"]
 WIDE_POOL = [7 * i - 400 for i in range(120)]
 WIDESTR_POOL = ["k%03d" % i for i in range(120)]
+#   huge   9200 ints: only the huge modes use it (more than 4096 / 8192 distinct values or docids of one value)
+#   X+none the pool X with the VALUE None below everything (an attribute that is present and None, a callable
+#          discriminator returning None: a value like any other for FieldIndex; OO BTrees order None before every
+#          other key).  None is only ever a stored value: as a query constant / bound the API gives it the meaning
+#          "open" (applyInRange(None, x)), and FieldIndex.apply(None) = search([None]) = values(None, None) is every
+#          indexed document - so constants start at rank 1 (`qlo`) for these pools.
+HUGE_POOL = [3 * i - 9000 for i in range(9200)]
 POOLS = {k: [e if isinstance(e, Alt) else Alt((e,)) for e in v] for k, v in (
     ("int", INT_POOL), ("str", STR_POOL), ("num", NUM_POOL), ("tuple", TUPLE_POOL), ("bytes", BYTES_POOL),
-    ("wide", WIDE_POOL), ("widestr", WIDESTR_POOL))}
-VTYPES = ["int"] * 5 + ["str"] * 4 + ["num"] * 4 + ["tuple"] * 2 + ["bytes"] * 2 + ["wide"] * 2 + ["widestr"]
+    ("wide", WIDE_POOL), ("widestr", WIDESTR_POOL), ("huge", HUGE_POOL))}
+NONE_KINDS = ["int", "int", "str", "num", "bytes", "wide"]
+for _k in set(NONE_KINDS):
+    POOLS[_k + "+none"] = [Alt((None,))] + POOLS[_k]
+VTYPES = ["int"] * 5 + ["str"] * 4 + ["num"] * 4 + ["tuple"] * 2 + ["bytes"] * 2 + ["wide"] * 2 + ["widestr"] + \
+    [k + "+none" for k in NONE_KINDS]
+WIDE_KINDS = ("wide", "widestr", "wide+none")
 IDS64 = list(range(16)) + [2 ** 31 - 1, -2 ** 31, 2 ** 62, -2 ** 62]
 IDS32 = list(range(16)) + [2 ** 31 - 1, -2 ** 31]
 OPS = ["eq", "noteq", "gt", "ge", "lt", "le", "any", "notany", "inrange", "notinrange"]
@@ -90,6 +135,11 @@ OPS = ["eq", "noteq", "gt", "ge", "lt", "le", "any", "notany", "inrange", "notin
 
 def pool_of(vtype):
     return POOLS[vtype or "int"]
+
+
+def qlo_of(vtype):
+    """lowest rank usable as a query constant (None is a stored value only)"""
+    return 1 if (vtype or "").endswith("+none") else 0
 
 
 def rank_table(vtype):
@@ -101,16 +151,46 @@ class Doc(object):
     pass
 
 
-def gen_query(rng, used, npool=len(INT_POOL)):
+# "an iterable of values": the any-of entry points are handed lists, tuples, sets, frozensets, dict key views and the
+# one-shot kinds (generator, iterator, map) - which one is decided by a hash of the command, so the model (which
+# sees the members) needs no change.  An implementation that walks the argument twice sees nothing the second time.
+SHAPES = ("list", "list", "tuple", "set", "frozenset", "generator", "iterator", "dictkeys", "map")
+
+
+def shape_of(cmd):
+    return SHAPES[zlib.crc32(repr([str(t) for t in cmd]).encode()) % len(SHAPES)]
+
+
+def as_iterable(shape, items):
+    items = list(items)
+    if shape == "tuple":
+        return tuple(items)
+    if shape == "set":
+        return set(items)
+    if shape == "frozenset":
+        return frozenset(items)
+    if shape == "generator":
+        return (x for x in items)
+    if shape == "iterator":
+        return iter(items)
+    if shape == "dictkeys":
+        return dict.fromkeys(items).keys()
+    if shape == "map":
+        return map(lambda x: x, items)
+    return items
+
+
+def gen_query(rng, used, npool=len(INT_POOL), qlo=0):
     op = rng.choice(OPS)
     n = npool
+    used = [u for u in used if u >= qlo] if qlo else used
 
     def const():
         if used and rng.random() < 0.6:
             return rng.choice(used)
         if used and rng.random() < 0.5:            # a neighbour of a used value (absent / between, on wide pools too)
-            return min(n - 1, max(0, rng.choice(used) + rng.choice([-1, 1])))
-        return rng.randrange(n)
+            return min(n - 1, max(qlo, rng.choice(used) + rng.choice([-1, 1])))
+        return rng.randrange(qlo, n)
     if op in ("any", "notany"):
         k = rng.choice([0, 1, 1, 2, 3, 4])
         cs = [const() for _ in range(k)]
@@ -126,10 +206,12 @@ def gen_query(rng, used, npool=len(INT_POOL)):
     return [op, const()]
 
 
-def gen_apply(rng, used, npool):
+def gen_apply(rng, used, npool, qlo=0):
     """FieldIndex.apply() called directly: dict forms, bare values, lists, RangeValue"""
+    used = [u for u in used if u >= qlo] if qlo else used
+
     def const():
-        return rng.choice(used) if used and rng.random() < 0.7 else rng.randrange(npool)
+        return rng.choice(used) if used and rng.random() < 0.7 else rng.randrange(qlo, npool)
     r = rng.random()
     if r < 0.3:
         return ["qa", rng.choice(["d", "b"]), "eq", const()]
@@ -144,26 +226,26 @@ def gen_apply(rng, used, npool):
             "none" if rng.random() < 0.2 else const()]
 
 
-def gen_queries(rng, used, npool, cmds, k):
+def gen_queries(rng, used, npool, cmds, k, qlo=0):
     for _ in range(k):
         if rng.random() < 0.12:
-            cmds.append(gen_apply(rng, used, npool))
+            cmds.append(gen_apply(rng, used, npool, qlo))
         else:
-            cmds.append([rng.choice(["q", "qx"])] + gen_query(rng, used, npool))
+            cmds.append([rng.choice(["q", "qx"])] + gen_query(rng, used, npool, qlo))
 
 
-def battery(rng, used, npool, cmds):
+def battery(rng, used, npool, cmds, qlo=0):
     for op in OPS:
-        q = gen_query(rng, used, npool)
+        q = gen_query(rng, used, npool, qlo)
         while q[0] != op:
-            q = gen_query(rng, used, npool)
+            q = gen_query(rng, used, npool, qlo)
         cmds.append(["q"] + q)
         cmds.append(["qx"] + q)
-    cmds.append(gen_apply(rng, used, npool))
+    cmds.append(gen_apply(rng, used, npool, qlo))
     cmds.append(["obs"])
 
 
-def small_ops(rng, ids, used, npool, cmds, cur, nops, pq=0.25):
+def small_ops(rng, ids, used, npool, cmds, cur, nops, pq=0.25, qlo=0, reset=True):
     """ordinary history: index / reindex / same content again / no value / unindex (known, unknown) / reset, with
     queries, the enumeration tuple (sometimes twice in a row: results must not be cached) and document_repr"""
     for _ in range(nops):
@@ -172,7 +254,7 @@ def small_ops(rng, ids, used, npool, cmds, cur, nops, pq=0.25):
         if cur and rng.random() < 0.3:
             d = rng.choice(sorted(cur))
         verb = "reindex" if rng.random() < 0.25 else "index"
-        if r < 0.03:
+        if r < 0.03 and reset:
             cmds.append(["reset"])
             cur.clear()
         elif r < 0.13:
@@ -191,7 +273,7 @@ def small_ops(rng, ids, used, npool, cmds, cur, nops, pq=0.25):
             cmds.append([verb, d, v])
             cur[d] = v
         if rng.random() < pq:
-            gen_queries(rng, used, npool, cmds, rng.randrange(1, 4))
+            gen_queries(rng, used, npool, cmds, rng.randrange(1, 4), qlo)
         if rng.random() < 0.06:
             cmds.append(["obs"])
             if rng.random() < 0.3:
@@ -227,15 +309,20 @@ def gen_bulk(rng, tier, fam, vtype, kind):
     `drain` that brings the largest posting back to 58..66 docids, an ordinary small history and the battery"""
     pool = pool_of(vtype)
     npool = len(pool)
+    qlo = qlo_of(vtype)
     n = bulk_sizes(rng, tier)
     ids = bulk_ids(rng, fam, n)
     if kind == "wide":
         used = sorted(rng.sample(range(npool), rng.randrange(35, min(npool, 110) + 1)))
+        if qlo and rng.random() < 0.7:
+            used = sorted(set(used) | {0})
         vals = [rng.choice(used) for _ in range(n)]
         hot = used[:1]
     else:
         nhot = rng.choice([1, 2, 2, 3, 4])
         used = sorted(rng.sample(range(npool), min(npool, nhot + rng.randrange(0, 4))))
+        if qlo and rng.random() < 0.7:                  # the value None among the values (possibly the hot one)
+            used = sorted(set(used) | {0})
         hot = rng.sample(used, min(nhot, len(used)))
         s0 = rng.randrange(65, n + 1) if rng.random() < 0.7 else rng.randrange(65, min(n, 75) + 1)
         vals = [hot[0]] * s0 + [rng.choice(hot[1:] or hot) for _ in range(n - s0)]
@@ -254,7 +341,7 @@ def gen_bulk(rng, tier, fam, vtype, kind):
         cmds.append(["index", d, v])
         cur[d] = v
     if rng.random() < 0.5:
-        gen_queries(rng, used, npool, cmds, 3)
+        gen_queries(rng, used, npool, cmds, 3, qlo)
     if kind == "hot" and rng.random() < 0.45:
         # drain: the largest posting shrinks to the neighbourhood of 64 (demotion-style changes need that)
         members = [d for d, v in pairs if v == hot[0]]
@@ -272,37 +359,149 @@ def gen_bulk(rng, tier, fam, vtype, kind):
                 v = rng.choice(used)
                 cmds.append(["index", d, v])
                 cur[d] = v
-        gen_queries(rng, used, npool, cmds, 2)
+        gen_queries(rng, used, npool, cmds, 2, qlo)
     # the small history works on a few of the bulk ids (first, last, members of the big posting) and fresh ones
     top = 2 ** 31 if fam == 32 else 2 ** 63
     fresh = [ids[-1] + 1000 + i for i in range(3)] if ids[-1] + 1003 < top else [ids[0] - 1000 - i for i in range(3)]
     some = sorted(set([ids[0], ids[-1]] + rng.sample(ids, 8) + fresh))
-    small_ops(rng, some, used, npool, cmds, cur, rng.randrange(5, 30), pq=0.2)
-    battery(rng, used, npool, cmds)
+    small_ops(rng, some, used, npool, cmds, cur, rng.randrange(5, 30), pq=0.2, qlo=qlo)
+    battery(rng, used, npool, cmds, qlo)
     return cmds
 
 
-def gen_history(rng, tier, ids, nvals, maxlen, npool=len(INT_POOL)):
-    used = sorted(rng.sample(range(npool), min(nvals, npool)))
+HUGE_T = 4096
+
+
+def range_battery(rng, vs, npool, cmds, hot=None):
+    """the range comparisons with bounds EQUAL to stored values and all four exclusive-flag combinations.  `vs`: the
+    ranks currently stored, ascending.  With more than HUGE_T + 4 of them the main range covers more than HUGE_T
+    distinct stored values whatever the flags (a 'large range' path must answer like the ordinary one), two more
+    ranges cover exactly HUGE_T and HUGE_T + 1 values (the two sides of such a threshold); otherwise the bounds are
+    two stored values (one of them `hot`, the value of the huge posting, if given)."""
+    via = lambda: rng.choice(["q", "qx"])
+    m = len(vs)
+    if m > HUGE_T + 4:
+        i = rng.randrange(0, m - HUGE_T - 3)
+        j = rng.randrange(i + HUGE_T + 3, m)
+    else:
+        i, j = sorted(rng.sample(range(m), 2)) if m > 1 else (0, 0)
+        if hot is not None and hot in vs:
+            k = vs.index(hot)
+            i, j = (k, max(j, k)) if rng.random() < 0.5 else (min(i, k), k)
+    lo, hi = vs[i], vs[j]
+    flags = [(0, 0), (0, 1), (1, 0), (1, 1)]
+    rng.shuffle(flags)
+    for el, eh in flags:
+        cmds.append([via(), "inrange", lo, hi, el, eh])
+    for el, eh in [(0, 1), (1, 0), rng.choice([(0, 0), (1, 1)])]:
+        cmds.append([via(), "notinrange", lo, hi, el, eh])
+    for op, c in (("lt", hi), ("le", hi), ("gt", lo), ("ge", lo)):
+        cmds.append([via(), op, c])
+    # bounds that are NOT stored (neighbouring ranks, if free), asymmetric flags
+    free = lambda r: 0 <= r < npool and r not in set(vs[max(0, i - 2):i + 3] + vs[max(0, j - 2):j + 3])
+    lo2 = lo - 1 if free(lo - 1) else lo
+    hi2 = hi + 1 if free(hi + 1) else hi
+    cmds.append([via(), "inrange", lo2, hi2] + list(rng.choice([(0, 1), (1, 0)])))
+    if m > HUGE_T + 4:
+        # the two sides of a threshold at HUGE_T distinct values: inclusive ranges of exactly HUGE_T and HUGE_T + 1
+        # stored values, then exclusive flags on them
+        a = rng.randrange(0, m - HUGE_T - 3)
+        for width in (HUGE_T, HUGE_T + 1):
+            el, eh = rng.choice(flags)
+            cmds.append([via(), rng.choice(["inrange", "inrange", "notinrange"]), vs[a], vs[a + width - 1], 0, 0])
+            cmds.append([via(), "inrange", vs[a], vs[a + width - 1 + el + eh], el, eh])
+    # a narrow range, equalities
+    a = rng.randrange(0, m)
+    b = min(m - 1, a + rng.randrange(0, 40))
+    cmds.append([via(), "inrange", vs[a], vs[b], rng.randrange(2), rng.randrange(2)])
+    some = [vs[a], vs[b], hi, lo][:rng.randrange(1, 5)]
+    cmds.append([via(), "any"] + some)
+    cmds.append([via(), "notany"] + some)
+    cmds.append([via(), rng.choice(["eq", "noteq"]), hot if hot is not None else lo])
+
+
+def gen_huge(rng, tier, fam, variant):
+    """thresholds far beyond a bucket: `distinct` = 4110-6000 documents (thorough: sometimes 8200-9000) with pairwise
+    distinct int values (a range then covers more than 4096 / 8192 distinct stored values), `posting` = one value
+    shared by more than 4096 documents plus 50-150 other values; loaded by `bindex` (= index_doc; the shrinker keeps
+    these commands), then a short ordinary history on first / last / random / fresh ids, then the range battery"""
+    npool = len(HUGE_POOL)
+    n = rng.randrange(8200, 9001) if tier == "thorough" and rng.random() < 0.15 else rng.randrange(4110, 6001)
+    ids = bulk_ids(rng, fam, n)
+    hot = None
+    if variant == "distinct":
+        vals = sorted(rng.sample(range(npool), n))
+    else:
+        hot = rng.randrange(npool)
+        nother = rng.randrange(50, 151)
+        vals = [hot] * (n - nother) + rng.sample(range(npool), nother)
+    order = rng.random()
+    if order < 0.45:
+        rng.shuffle(vals)
+    elif order < 0.6:
+        vals.reverse()
     cmds = []
-    small_ops(rng, ids, used, npool, cmds, {}, rng.randrange(5, maxlen))
-    battery(rng, used, npool, cmds)
+    cur = {}
+    for d, v in zip(ids, vals):
+        cmds.append(["bindex", d, v])
+        cur[d] = v
+    top = 2 ** 31 if fam == 32 else 2 ** 63
+    fresh = [ids[-1] + 1000 + i for i in range(3)] if ids[-1] + 1003 < top else [ids[0] - 1000 - i for i in range(3)]
+    some = sorted(set([ids[0], ids[-1]] + rng.sample(ids, 6) + fresh))
+    used = sorted(set(rng.sample(vals, 6) + [rng.randrange(npool) for _ in range(2)]))
+    if rng.random() < 0.75:
+        # a document without a value next to the huge index (negations must still list it)
+        cmds.append(["index", fresh[0], "none"])
+        cur[fresh[0]] = "none"
+    small_ops(rng, some, used, npool, cmds, cur, rng.randrange(3, 12), pq=0.1, reset=False)
+    vs = sorted({v for v in cur.values() if v != "none"})
+    range_battery(rng, vs, npool, cmds, hot)
+    cmds.append(["obs"])
     return cmds
+
+
+def gen_history(rng, tier, ids, nvals, maxlen, npool=len(INT_POOL), qlo=0):
+    used = sorted(rng.sample(range(npool), min(nvals, npool)))
+    if qlo and rng.random() < 0.85:
+        used = sorted(set(used) | {0})                  # the value None
+    cmds = []
+    small_ops(rng, ids, used, npool, cmds, {}, rng.randrange(5, maxlen), qlo=qlo)
+    battery(rng, used, npool, cmds, qlo)
+    return cmds
+
+
+HUGE_EVERY = 400
+
+
+def huge_slot(tier, idx):
+    """which generated cases are huge ones: decided by the case number, not by chance, so that every run has them
+    and has them early in the shard: quick = 4 (case 2 of every fourth shard: 3 distinct + 1 posting), thorough =
+    case 2, 402, 802, .. of every shard"""
+    shard, i = divmod(idx, 1000003)
+    if i % HUGE_EVERY != 2 or (tier == "quick" and shard % 4):
+        return None
+    return "posting" if (i // HUGE_EVERY + shard // 4) % 4 == 3 else "distinct"
 
 
 def gen(rng, tier, idx):
-    # 15% of the cases keep the index in a ZODB connection with commits / evictions / aborts in between
-    return zbox.sprinkle(rng, gen_mem(rng, tier, idx), 0.15)
+    # 15% of the cases keep the index in a ZODB connection with commits / evictions / aborts in between (never
+    # between the bulk-loading commands of a huge case: an abort there would take the documents away again)
+    return zbox.sprinkle(rng, gen_mem(rng, tier, idx), 0.15, barrier=lambda c: c[0] == "bindex")
 
 
 def gen_mem(rng, tier, idx):
     fam = rng.choice([32, 64])
+    variant = huge_slot(tier, idx)
+    if variant:
+        cfg = [["cfg", "family", fam], ["cfg", "vtype", "huge"], ["cfg", "disc", rng.choice(["attr", "callable"])],
+               ["cfg", "opt", rng.randrange(2)], ["cfg", "mode", "huge-" + variant]]
+        return {"session": "field", "cfg": cfg, "cmds": gen_huge(rng, tier, fam, variant)}
     vtype = rng.choice(VTYPES)
     cfg = [["cfg", "family", fam], ["cfg", "vtype", vtype],
            ["cfg", "disc", rng.choice(["attr", "callable"])], ["cfg", "opt", rng.randrange(2)]]
     r = rng.random()
-    if r < (0.4 if vtype in ("wide", "widestr") else BULK_SHARE):
-        kind = "wide" if vtype in ("wide", "widestr") and rng.random() < 0.7 else "hot"
+    if r < (0.4 if vtype in WIDE_KINDS else BULK_SHARE):
+        kind = "wide" if vtype in WIDE_KINDS and rng.random() < 0.7 else "hot"
         return {"session": "field", "cfg": cfg + [["cfg", "mode", "bulk-" + kind]],
                 "cmds": gen_bulk(rng, tier, fam, vtype, kind)}
     ids = IDS32 if fam == 32 else IDS64
@@ -310,7 +509,7 @@ def gen_mem(rng, tier, idx):
         ids = ids[:rng.randrange(3, 10)]
     maxlen = 60 if tier == "quick" or rng.random() < 0.9 else 400
     return {"session": "field", "cfg": cfg,
-            "cmds": gen_history(rng, tier, ids, rng.randrange(3, 9), maxlen, len(pool_of(vtype)))}
+            "cmds": gen_history(rng, tier, ids, rng.randrange(3, 9), maxlen, len(pool_of(vtype)), qlo_of(vtype))}
 
 
 BULK_SHARE = 0.18
@@ -324,7 +523,7 @@ def model_cmd(c):
     """the model has one index step (reindex_doc is index_doc) and the comparison entry points; FieldIndex.apply()
     forms are named by what they mean: eq, any-of, RangeValue = inclusive range, operator 'and' = the
     intersection of equalities (one value per document: equal constants -> eq, different ones -> nothing)"""
-    if c[0] == "reindex":
+    if c[0] in ("reindex", "bindex"):
         return ["index"] + list(c[1:])
     if c[0] == "qa":
         kind, args = c[2], list(c[3:])
@@ -374,7 +573,7 @@ class FieldImpl(object):
         idx = self.idx
         op = q[0]
         if op in ("any", "notany"):
-            args = ([self.val(c) for c in q[1:]],)
+            args = (as_iterable(shape_of([via_object] + list(q)), [self.val(c) for c in q[1:]]),)
         elif op in ("inrange", "notinrange"):
             args = (self.val(q[1]), self.val(q[2]), bool(q[3]), bool(q[4]))
         elif op == "eqtuple":
@@ -420,7 +619,7 @@ class FieldImpl(object):
     def execute(self, c):
         try:
             op = c[0]
-            if op == "index":
+            if op in ("index", "bindex"):
                 self.current[c[1]] = c[2]
                 self.idx.index_doc(c[1], self.doc(c[2]))
                 return "ok"
@@ -469,6 +668,12 @@ def impl_run(hyp, case):
         box.close()
 
 
+def keep_cmd(c):
+    """the shrinker never drops the bulk load of a huge case (a size threshold needs it, and every attempt costs
+    seconds there)"""
+    return c[0] == "bindex"
+
+
 def nontrivial(case, outs):
     answers = {o for c, o in zip(case["cmds"], outs) if c[0] in ("q", "qx", "qa")}
     return len(answers) >= 3 and any(o not in ("{}",) for o in answers)
@@ -481,7 +686,7 @@ def size_features(case, value_of):
     post = {}
     mp = mv = mn = 0
     for c in case["cmds"]:
-        if c[0] in ("index", "reindex", "unreindex", "unindex"):
+        if c[0] in ("index", "reindex", "unreindex", "unindex", "bindex"):
             d = c[1]
             old = cur.pop(d, ())
             for v in (() if old == "none" else old):
@@ -506,8 +711,26 @@ def size_features(case, value_of):
                 return "%d-%d" % (lo, e)
             lo = e + 1
         return ">%d" % edges[-1]
-    return ["max-posting:" + bucket(mp, [16, 63, 64, 120, 300]), "max-values:" + bucket(mv, [8, 30, 60]),
+    return ["max-posting:" + bucket(mp, [16, 63, 64, 120, 300, 4096]), "max-values:" + bucket(mv, [8, 30, 60, 4096]),
             "max-novalue:" + bucket(mn, [16, 120])], mp
+
+
+RANGE_OPS = {"inrange": None, "notinrange": None, "lt": ("none", 1, 0, 1), "le": ("none", 1, 0, 0),
+             "gt": (1, "none", 1, 0), "ge": (1, "none", 0, 0)}
+
+
+def huge_range_feature(c, last):
+    """huge cases: how many distinct stored values the range covers, the flags, whether a bound is a stored value"""
+    if c[1] in ("inrange", "notinrange"):
+        lo, hi, el, eh = c[2:6]
+    else:
+        lo, hi, el, eh = [c[2] if x == 1 and i < 2 else x for i, x in enumerate(RANGE_OPS[c[1]])]
+    stored = {v for v in last.values() if v != "none"}
+    k = sum(1 for v in stored if (lo == "none" or (v > lo if el else v >= lo)) and
+            (hi == "none" or (v < hi if eh else v <= hi)))
+    width = "<%d" % HUGE_T if k < HUGE_T else "=%d" % k if k <= HUGE_T + 1 else ">%d" % (HUGE_T + 1)
+    tie = "+".join(n for n, b in (("lo", lo), ("hi", hi)) if b in stored) or "none"
+    return "huge:%s:covers%s:excl=%d%d:stored-bound=%s" % (c[1], width, el, eh, tie)
 
 
 def features(case, outs):
@@ -520,14 +743,19 @@ def features(case, outs):
     f += sf
     last = {}
     prev_cmd = None
+    huge = str(cfg.get("mode", "")).startswith("huge")
     for c, o in zip(case["cmds"], outs):
         if c[0] in ("q", "qx"):
             f.append("%s:%s:%s" % (c[0], c[1], "empty" if o == "{}" else "nonempty" if o.startswith("{") else o))
+            if c[1] in ("any", "notany"):
+                f.append("any-arg:" + shape_of([c[0] == "qx"] + list(c[1:])))
             if c[1] in ("inrange", "notinrange") and c[2] != "none" and c[3] != "none" and c[2] > c[3]:
                 f.append("inverted-range")
+            if huge and c[1] in RANGE_OPS:
+                f.append(huge_range_feature(c, last))
         elif c[0] == "qa":
             f.append("apply:%s:%s:%s" % (c[1], c[2], "empty" if o == "{}" else "nonempty" if o.startswith("{") else o))
-        elif c[0] in ("index", "reindex"):
+        elif c[0] in ("index", "reindex", "bindex"):
             prev = last.get(c[1], "unknown")
             now = "none" if c[2] == "none" else "val"
             f.append("index:%s->%s%s" % ("none" if prev == "none" else "unknown" if prev == "unknown" else "val", now,
